@@ -64,7 +64,7 @@ struct Pool {
 };
 
 struct Op { uint8_t kind, a, b, c; };
-enum { NKINDS = 48 };
+enum { NKINDS = 49 };
 
 // When this harness runs as the concurrent-use stage of ANOTHER property's check (environment VERIF_FAMILY=Cxx), the programs are made
 // of the operation kinds that exercise that property's functions only, so that a few dozen cases in a fresh process put every one of
@@ -76,9 +76,9 @@ const Family &family() {
         static const struct { const char *id; int kinds[10]; } tab[] = {      // each list ends with -1
             {"C01", {14, 15, 16, 21, 22, 23, 45, 30, -1}}, {"C02", {14, 15, 21, 22, 23, 45, -1}}, {"C03", {14, 15, 16, 21, 22, 23, 45, -1}},
             {"C04", {35, 36, 41, 42, 43, 6, 9, 14, -1}}, {"C05", {19, 20, 40, -1}}, {"C06", {4, 5, 43, 20, 9, 3, -1}}, {"C07", {0, 1, 2, 3, 46, -1}},
-            {"C08", {6, 7, 8, 46, -1}}, {"C09", {10, 11, 12, 13, 44, 46, 47, -1}}, {"C10", {27, 28, 29, 30, 31, 32, -1}}, {"C11", {27, 28, 29, 30, 31, 32, -1}},
+            {"C08", {6, 7, 8, 46, -1}}, {"C09", {10, 11, 12, 13, 44, 46, 47, -1}}, {"C10", {27, 28, 29, 30, 31, 32, 48, -1}}, {"C11", {27, 28, 29, 30, 31, 32, 48, -1}},
             {"C12", {17, 33, 27, 37, -1}}, {"C13", {18, 34, 27, 28, 29, 37, -1}}, {"C14", {24, 25, 26, -1}}, {"C15", {24, 25, 26, -1}}, {"C16", {37, 38, 39, 44, -1}},
-            {"C17", {30, 31, 32, 27, -1}}, {"C18", {26, 15, 36, 10, 12, 38, 42, -1}}};
+            {"C17", {30, 31, 32, 27, 48, -1}}, {"C18", {26, 15, 36, 10, 12, 38, 42, -1}}};
         const char *e = getenv("VERIF_FAMILY");
         if (e) for (const auto &t : tab) if (!strcmp(e, t.id)) for (int i = 0; i < 10 && t.kinds[i] >= 0; i++) r.k[r.n++] = (uint8_t)t.kinds[i];
         return r;
@@ -92,6 +92,13 @@ const char *const kFormats[] = {"{}", "[{>12}]", "{<8}|{x}", "{_*>20}", "{}{}{}"
 const double kDoubles[] = {0.0, 1.5, -2.25, 3.14159265358979, 1e63, 1e100, -1e300, 1.7976931348623157e308, 5e-324, 123456789.125, 1e-7, -0.0};
 const char kDelims[][48] = {" ", ",", ", ;", "\t\n ", "a", "-:", " ,;:-\t\n.!?()[]{}<>/|\\\"'", "0123456789abcdefABCDEF ,;", " ,;:-_=+*&^%$#@!~`|/?.<>()[]{}"};
 enum { NDELIMS = 9 };
+
+// an argument of a user-defined type whose format_type() calls ST::format again, `depth` levels deep (a formatter built from the library's own formatting)
+struct Nest { int depth; int v; };
+inline void format_type(const ST::format_spec &, ST::format_writer &out, const Nest &n) {
+    ST::string in = n.depth > 0 ? ST::format("<{}:{}>", n.v, Nest{n.depth - 1, n.v + 1}) : ST::format("{x}", n.v);
+    out.append(in.c_str(), in.size());
+}
 
 // One operation.  `rd` reads shared objects only through const references; locals are thread-private.
 struct Local {
@@ -174,6 +181,7 @@ void run_op(const Pool &P, const Op &op, Local &L, Digest &D) {
         D.num(L.find(needle2, cs)); D.num(L.find_last(needle2, cs)); D.num(T.contains(needle2, cs)); D.str(L.after_first(needle2, cs)); D.str(L.replace(needle2, "-", cs));
         std::vector<ST::string> v = L.split(needle2, 4, cs); D.num((long long)v.size());
     } break;
+    case 48: D.str(ST::format("{}|{>6}|{}", Nest{3 + op.b % 8, (int)op.c}, (int)op.a, Nest{1, 7})); break;
     case 47: { std::vector<ST::string> v = S.tokenize(kDelims[6 + op.b % 3]); D.num((long long)v.size()); for (auto &x : v) D.str(x); v = T.tokenize(kDelims[6 + op.c % 3]); D.num((long long)v.size()); } break;
     default: { ST::utf16_buffer w = S.to_utf16(); ST::string back(w); D.num(back == S); ST::wchar_buffer ww = T.to_wchar(); ST::string b2 = ST::string::from_wchar(ww.data(), ww.size()); D.num(b2 == T); } break;
     }
